@@ -192,8 +192,10 @@ def _mk(sim, variant=None):
         mesh = patches.real_mesh("QUAD4", coords, connect)
         mat = Models.Elastic.Isotropic(2, E=3.0, v=0.25, planeStress=False)
         PF = Models.PhaseField
-        kw = dict(solver=PF.SolverType[variant]) if variant and variant != "unload" else {}
-        s = Simulations.PhaseField(mesh, PF(mat, PF.SplitType.Miehe, PF.ReguType.AT2, Gc=1.0, l0=0.5, **kw))
+        kw = dict(solver=PF.SolverType[variant.split(".")[0]]) if variant and not variant.startswith("unload") else {}
+        split = PF.SplitType.Bourdin if "Bourdin" in (variant or "") else PF.SplitType.Miehe
+        s = Simulations.PhaseField(mesh, PF(mat, split, PF.ReguType.AT2, Gc=1.0, l0=0.5, **kw))
+        s._vt_K_follows_d_only = split == PF.SplitType.Bourdin
     elif sim == "HyperElastic":
         coords, connect = patches.star_patch("QUAD4")
         mesh = patches.real_mesh("QUAD4", coords, connect)
@@ -352,8 +354,9 @@ def ob_roundtrip(sim, mode, dynamic, variant=None):
         s = _mk(sim, variant)
         # variant "unload" (phase field, History solver): staggered scheme iterated on the damage (convOption=0: no energy evaluation refreshes the trial history field at the end of a
         # pass), load path up / down / up -- the committed history field then differs from the driving energy of the current displacement
-        solve_kw = dict(tolConv=1e-2, maxIter=50, convOption=0) if variant == "unload" else {}
-        if variant == "unload":
+        unload = "unload" in (variant or "")
+        solve_kw = dict(tolConv=1e-2, maxIter=50, convOption=0) if unload else {}
+        if unload:
             s._vt_unload = True
         solve = lambda: s.Solve(**solve_kw)
         if mode in ("disk", "switch"):
@@ -379,8 +382,15 @@ def ob_roundtrip(sim, mode, dynamic, variant=None):
             hist.append(f"Save_Iter#{k}")
             saved_state.append(_state(s))
             saved_results.append(_deep_results(s, k))
-            s.Need_Update()                      # the system of the state just saved, assembled afresh
+            handed = _mats(s)                    # what the public getter hands out right after the solve ...
+            s.Need_Update()                      # ... and the system of the state just saved, assembled afresh
             saved_mats.append(_mats(s))
+            bad, e = _derived_diff(saved_mats[-1], handed, tol=1e-8)
+            # (a strain split makes the stiffness of the staggered scheme depend on the displacement iterate it was linearised about: only compared when K follows the damage alone)
+            if bad is not None and not dynamic and (sim != "PhaseField" or getattr(s, "_vt_K_follows_d_only", False)):
+                raise Refuted(f"{sim}{'/' + variant if variant else ''}/{mode}: right after Solve#{k} the public getter hands out a {bad} that differs by {e:.3e} (relative) from the system assembled afresh on the "
+                              f"returned state: a matrix assembled for an intermediate state of the solve is kept as up to date", cex=dict(history=hist + ["Get_K_C_M_F"], which=bad),
+                              signature=f"roundtrip:{sim}:handed:{bad}", replay=dict(confirmed=True, rel_diff=e))
             name = {"Thermal": "thermal", "WeakForms": "u"}.get(sim, "displacement")
             named.append(np.asarray(s.Result(name)).copy())
             if mode == "switch" and k == 0:
@@ -825,7 +835,7 @@ def build(tier, seed):
             obs.append(Ob("C15.roundtrip.PhaseField.unload", ob_roundtrip, (sim, "memory", False, "unload"), "X", (f"{SIMS[sim]}::{sim}.Save_Iter", f"{SIMS[sim]}::{sim}.Set_Iter", f"{SIMS[sim]}::{sim}.Result"),
                           bound="load / unload / reload on a small mesh, History solver, staggered scheme converged on the damage (convOption=0), in-memory history", timeout=300,
                           clause="the committed history field is restored with the iteration it belongs to; a query of results is a read: it changes nothing a later Save_Iter stores"))
-            for variant in ("HistoryDamage", "BoundConstrain"):
+            for variant in ("HistoryDamage", "BoundConstrain", "HistoryDamage.Bourdin.unload"):
                 obs.append(Ob(f"C15.roundtrip.{sim}.{variant}", ob_roundtrip, (sim, "memory", False, variant), "X", (f"{SIMS[sim]}::{sim}.Save_Iter", f"{SIMS[sim]}::{sim}.Set_Iter"),
                               bound="3 solve/save steps on a small mesh, in-memory history, non-default irreversibility solver", clause="restore / read / stored-iteration immutability; results of a restored iteration do not depend on the previous state", timeout=300))
         if DYNAMIC[sim]:
